@@ -31,6 +31,7 @@ import YtkProofs.ResolverRelex
 import YtkProofs.ResolverNestedConv
 import YtkProofs.ResolverStable
 import YtkProofs.FuncsLemmas
+import YtkProofs.FuncsResolver
 
 namespace Ytk.C11
 open Ytk.Resolver
@@ -1304,5 +1305,149 @@ theorem replaceAt_generated_eq_model (s repl : String) (start stop : Nat) (h : s
     congr 1; apply String.toList_inj.mp; simp [String.toList_append]
 
 theorem indexAfter_negative_offset_panics : Funcs.indexAfter "ab" "a" (-1) = .panic := by decide
+
+end Ytk.C11
+
+/-! ## `propImpl.findEndIndex`, as translated (bytes), against `findEnd` (tokens)
+
+    The translation flattens the receiver: `p.pl`, `p.b.suffix`, `p.sl`, `p.b.prefix` are parameters;
+    `MustBuild` sets `pl = len(prefix)`, `sl = len(suffix)` and the theorem instantiates them so. -/
+namespace Ytk.C11
+open Ytk.Generated Ytk.Resolver
+
+/-- what `findEndIndex` does with the outcome of its loop: `return index` inside, `return notFound` behind it -/
+def feFinish : Go.Ctl Int (Int × Int) → Go.Res Int
+  | .ret r => .ok r
+  | .next _ => .ok (-1)
+
+/-- the loop of the translated `findEndIndex` IS the character-level scan `scanEnd` (no panic, fuel suffices) -/
+theorem findEndIndex_loop1_eq (d : Delims) (hp : d.pre ≠ []) (hs : d.suf ≠ []) (buf : String) :
+    ∀ (fuel i n : Nat), buf.toList.length - i + 1 ≤ fuel →
+      (Funcs.findEndIndex_loop1 (d.pre.length : Int) (String.ofList d.suf) (d.suf.length : Int)
+          (String.ofList d.pre) buf fuel (i : Int) (n : Int) >>= feFinish)
+        = .ok (match scanEnd d 0 n (buf.toList.drop i) with
+               | some k => ((i + k : Nat) : Int)
+               | none => -1) := by
+  intro fuel
+  induction fuel with
+  | zero => intro i n h; omega
+  | succ fuel ih =>
+    intro i n hf
+    unfold Funcs.findEndIndex_loop1
+    have hpl : 1 ≤ d.pre.length := List.length_pos_iff.mpr hp
+    have hsl : 1 ≤ d.suf.length := List.length_pos_iff.mpr hs
+    by_cases hi : i < buf.toList.length
+    · have h1 : ((i : Int) < Go.len buf) := by simp only [Go.len_eq]; omega
+      have hm1 := matchAt_generated_eq_model buf (String.ofList d.suf) i (Nat.le_of_lt hi)
+      have hm2 := matchAt_generated_eq_model buf (String.ofList d.pre) i (Nat.le_of_lt hi)
+      rw [String.toList_ofList] at hm1 hm2
+      have hne : buf.toList.drop i ≠ [] := by
+        intro e; have := congrArg List.length e; simp at this; omega
+      simp only [h1, decide_true, if_true, hm1, hm2, Go.Res.ok_bind]
+      cases hS : isPrefixOfChars d.suf (buf.toList.drop i) with
+      | true =>
+        cases n with
+        | zero => simp [scanEnd_suf_zero hne hS, feFinish]
+        | succ m =>
+          have hn : (((m + 1 : Nat) : Int) > 0) := by omega
+          have e1 : (((m + 1 : Nat) : Int) - 1) = (m : Int) := by omega
+          have e2 : (i : Int) + (d.suf.length : Int) = ((i + d.suf.length : Nat) : Int) := by omega
+          simp only [hn, decide_true, if_true, e1, e2]
+          rw [ih (i + d.suf.length) m (by omega), scanEnd_suf_succ m hs hS, List.drop_drop]
+          cases scanEnd d 0 m (List.drop (i + d.suf.length) buf.toList) <;> simp <;> omega
+      | false =>
+        cases hP : isPrefixOfChars d.pre (buf.toList.drop i) with
+        | true =>
+          have e1 : ((n : Int) + 1) = ((n + 1 : Nat) : Int) := by omega
+          have e2 : (i : Int) + (d.pre.length : Int) = ((i + d.pre.length : Nat) : Int) := by omega
+          simp only [if_true, e1, e2, Bool.false_eq_true, if_false]
+          rw [ih (i + d.pre.length) (n + 1) (by omega), scanEnd_pre n hp hS hP, List.drop_drop]
+          cases scanEnd d 0 (n + 1) (List.drop (i + d.pre.length) buf.toList) <;> simp <;> omega
+        | false =>
+          have e2 : (i : Int) + 1 = ((i + 1 : Nat) : Int) := by omega
+          simp only [e2, Bool.false_eq_true, if_false]
+          rw [ih (i + 1) n (by omega)]
+          obtain ⟨c, cs, hc⟩ := List.exists_cons_of_ne_nil hne
+          have hcs : List.drop (i + 1) buf.toList = cs := by
+            rw [← List.drop_drop, hc]; rfl
+          rw [hc] at hS hP
+          rw [hc, scanEnd_ch n hS hP, hcs]
+          cases scanEnd d 0 n cs <;> simp <;> omega
+    · have h1 : ¬ ((i : Int) < Go.len buf) := by simp only [Go.len_eq]; omega
+      have hd : buf.toList.drop i = [] := List.drop_eq_nil_of_le (by omega)
+      simp [h1, hd, scanEnd_nil, feFinish]
+
+theorem findEndIndex_unfold (pl : Int) (suf : String) (sl : Int) (pre : String) (buf : String) (start : Int) :
+    Funcs.findEndIndex pl suf sl pre buf start
+      = (Funcs.findEndIndex_loop1 pl suf sl pre buf ((Go.len buf + 1).toNat) (start + pl) 0 >>= feFinish) := by
+  unfold Funcs.findEndIndex
+  dsimp only
+  congr 1
+  funext x
+  rcases x with r | ⟨a, b⟩ <;> rfl
+
+/-- props.propImpl.findEndIndex, as translated, on BYTES, for every string and every start index:
+    no panic, loop fuel `len(buf)+1` suffices, and the result is the character-level scan `scanEnd`
+    of the text behind the prefix (delimiters non-empty — `MustBuild` does not check that; with an
+    empty suffix the Go loop would not advance). -/
+theorem findEndIndex_generated_eq_scan (d : Delims) (hp : d.pre ≠ []) (hs : d.suf ≠ []) (buf : String) (start : Nat) :
+    Funcs.findEndIndex (d.pre.length : Int) (String.ofList d.suf) (d.suf.length : Int) (String.ofList d.pre) buf
+        (start : Int)
+      = .ok (match scanEnd d 0 0 (buf.toList.drop (start + d.pre.length)) with
+             | some k => ((start + d.pre.length + k : Nat) : Int)
+             | none => -1) := by
+  rw [findEndIndex_unfold]
+  have e : (start : Int) + (d.pre.length : Int) = ((start + d.pre.length : Nat) : Int) := by omega
+  have hf : (Go.len buf + 1).toNat = buf.toList.length + 1 := by simp only [Go.len_eq]; omega
+  rw [e, hf]
+  exact findEndIndex_loop1_eq d hp hs buf _ _ 0 (by omega)
+
+/-- **BYTES ↔ TOKENS.**  props.propImpl.findEndIndex, as translated, started at the index `start` of a
+    prefix (the Go code never looks at `buf[:start+pl]`), for EVERY string `buf` and every `start`:
+    it does not panic, the fuel suffices, and with `rest = buf[start+pl:]`
+      * it returns `-1` (notFound) iff the model's `findEnd 0 (lex d rest)` is `none`;
+      * if the model returns `some (ph, after)` it returns `start + pl + |unlex d ph|`, the byte
+        position that corresponds to the position of the closing suffix token in the token list:
+        `rest = unlex d ph ++ suffix ++ unlex d after` (`findEndIndex_position`).
+    Domain: `Delims.ScanOK` (non-empty delimiters with pairwise different first characters, no
+    character of the separator starts the prefix or the suffix) — implied by the model's "no
+    character shared between two delimiters"; `LexOK` alone is not enough
+    (`findEndIndex_lexOK_not_enough_counterexample`). -/
+theorem findEndIndex_generated_eq_model (d : Delims) (hd : d.ScanOK) (buf : String) (start : Nat) :
+    Funcs.findEndIndex (d.pre.length : Int) (String.ofList d.suf) (d.suf.length : Int) (String.ofList d.pre) buf
+        (start : Int)
+      = .ok (match findEnd 0 (lex d (buf.toList.drop (start + d.pre.length))) with
+             | some (ph, _) => ((start + d.pre.length + (unlex d ph).length : Nat) : Int)
+             | none => -1) := by
+  obtain ⟨a, as, b, bs, c, cs, hp, hs, _⟩ := hd.cases
+  rw [findEndIndex_generated_eq_scan d (by rw [hp]; simp) (by rw [hs]; simp), scanEnd_eq_findEnd' hd]
+  cases findEnd 0 (lex d (buf.toList.drop (start + d.pre.length))) <;> rfl
+
+/-- the position statement behind `findEndIndex_generated_eq_model`: what the model's `findEnd`
+    returns on the lexed text splits the BYTES at the returned index (every delimiter triple) -/
+theorem findEndIndex_position (d : Delims) (rest : List Char) (ph after : Toks)
+    (h : findEnd 0 (lex d rest) = some (ph, after)) :
+    rest = unlex d ph ++ d.suf ++ unlex d after := by
+  have e := (findEnd_some_spec h).1
+  have := unlex_lex' d rest
+  rw [e, DivR.unlex_append] at this
+  rw [← this]; simp [unlex, unlexTok]
+
+theorem nonvacuous_findEndIndex :
+    DivR.dd.ScanOK ∧
+    Funcs.findEndIndex 2 "}" 1 "${" "a${x${y}:d}z" (1 : Nat) = .ok 10 ∧
+    findEnd 0 (lex DivR.dd "x${y}:d}z".toList) = some ([.ch 'x', .pre, .ch 'y', .suf, .sep, .ch 'd'], [.ch 'z']) ∧
+    Funcs.findEndIndex 2 "}" 1 "${" "a${x${y}" (1 : Nat) = .ok (-1) := by
+  decide
+
+/-- `LexOK` (pairwise different FIRST characters) is not enough for bytes = tokens: with the
+    separator `:}` and the suffix `}` the text `${a:}` has the placeholder `a:` for the Go code
+    (index 4 is returned) while the lexer sees prefix, `a`, separator — no suffix token. -/
+theorem findEndIndex_lexOK_not_enough_counterexample :
+    let d : Delims := ⟨['$', '{'], ['}'], [':', '}']⟩
+    d.LexOK ∧ ¬ d.ScanOK ∧
+    Funcs.findEndIndex 2 "}" 1 "${" "${a:}" (0 : Nat) = .ok 4 ∧
+    findEnd 0 (lex d "a:}".toList) = none := by
+  decide
 
 end Ytk.C11
